@@ -81,8 +81,10 @@ func outcomeReply(d *Dict, o Outcome) replyJ {
 	return r
 }
 
-var namePool = []string{"a", "a/b", "prod/db\npass", "_internal/x", "", "x*y", "é世\U0001F511", "a.b", "b"}
-var patPool = []string{"*", "a", "a*", "*/b", "prod/*", "_internal/*", "*\n*", "x*y", "x\\*y", "*b", "a?b", "a.b", "é*", "", "**", "*a*", "b", "a*a", "a/*/b", "b*b", "a*/b"}
+var namePool = []string{"a", "a/b", "prod/db\npass", "_internal/x", "", "x*y", "é世\U0001F511", "a.b", "b",
+	// names that are different strings but "the same path": the service treats names as opaque strings
+	"a/../b", "a/", "./a", "a//b"}
+var patPool = []string{"*", "a", "a*", "*/b", "prod/*", "_internal/*", "*\n*", "x*y", "x\\*y", "*b", "a?b", "a.b", "é*", "", "**", "*a*", "b", "a*a", "a/*/b", "b*b", "a*/b", "a/*", "./*"}
 var valToks = []string{"E", "v1", "v2", "v3", "v4"}
 var actionPool = []string{"get", "info", "put", "activate", "delete"}
 
@@ -199,6 +201,11 @@ func genHistoryNames(sys *Sys, r *rand.Rand, w *vh.NDJSONWriter, res *vh.Result,
 			who := "su"
 			if r.Intn(5) < 2 {
 				who = []string{"c1", "c2", "c3"}[r.Intn(3)]
+				if r.Intn(6) == 0 {
+					// the same principal comes back with another grant (policy changed, or another node of the same
+					// user): every call is decided on the rules presented with it
+					callers[who] = genRules()
+				}
 			}
 			c := Call{Who: who, Rules: callers[who], Name: names[r.Intn(len(names))], Val: "Nil", Fault: "none"}
 			if r.Intn(12) == 0 {
